@@ -7,7 +7,7 @@
 //! of M (one arc, one weight, or the order differs). Then A is cloned and both
 //! copies continue with independent mutation histories.
 
-use super::c01::{draw_small_order, draw_start, draw_steps, model_apply, run_history};
+use super::c01::{draw_small_order, draw_start, draw_steps, model_apply, run_history, run_history_sparse};
 use super::draw_sched;
 use crate::core::{Lane, Scenario, Stats, Tier, Violation};
 use crate::dynrep::{construct, start_supported, DynG, ReprKind, Start, Step, ALL_KINDS};
@@ -214,7 +214,8 @@ fn follow_route(
         return None;
     }
     let fix = fixup(kind, &model, target, route.seed);
-    if !run_history(kind, &mut g, &mut model, &fix, st, vs, label) {
+    let every = if fix.len() > 64 { 16 } else { 1 };
+    if !run_history_sparse(kind, &mut g, &mut model, &fix, st, vs, label, every) {
         return None;
     }
     debug_assert_eq!(&model, target);
@@ -249,7 +250,7 @@ fn neighbour_of(kind: ReprKind, m: &WDg, how: &str, seed: u64) -> WDg {
             }
         } else {
             // a single vertex: the only neighbour is one more vertex
-            let _ = n.v.insert(ids[ids.len() - 1] + 1);
+            let _ = n.v.insert(ids[ids.len() - 1].wrapping_add(1));
         }
     };
     match how {
@@ -260,7 +261,7 @@ fn neighbour_of(kind: ReprKind, m: &WDg, how: &str, seed: u64) -> WDg {
             *w = if *w == 5 { 6 } else { 5 };
         }
         "order" => {
-            let _ = n.v.insert(ids[ids.len() - 1] + 1);
+            let _ = n.v.insert(ids[ids.len() - 1].wrapping_add(1));
         }
         _ => toggle_arc(&mut n, &mut rng),
     }
@@ -273,7 +274,20 @@ impl Lane for C20 {
 
     fn draw(rng: &mut Rng, tier: Tier, _run_index: u64) -> Scenario<Body> {
         let kind = *rng.pick(&ALL_KINDS);
-        let start_a = draw_start(rng, kind);
+        // fix-up histories are as long as the arc set: keep the digraphs of this lane small (the bit-matrix
+        // word boundaries at orders 8..12 are covered; orders >= 63 belong to C01's short histories)
+        let mut start_a = draw_start(rng, kind);
+        // (the bit matrix may be larger: its hidden state - padding bits, block counts - depends on the order)
+        let cap = if kind == ReprKind::Matrix { 80 } else { 24 };
+        for _ in 0..8 {
+            if super::c01::start_order_hint(&start_a) <= cap {
+                break;
+            }
+            start_a = draw_start(rng, kind);
+        }
+        if super::c01::start_order_hint(&start_a) > cap {
+            start_a = Start::Empty { order: 12 };
+        }
         let n = draw_small_order(rng, kind).max(2);
         let maxlen = match tier {
             Tier::Quick => 24,
